@@ -1,6 +1,7 @@
 package main
 
 import (
+	"sort"
 	"fmt"
 	"go/token"
 	"go/types"
@@ -117,9 +118,9 @@ func (e *Exec) globalRef(g *ssa.Global) string {
 	e.globalByRef[name] = g
 	if _, ok := e.ctx.declared[name]; !ok {
 		e.ctx.declare(name, sInt)
-		e.ctx.assume(and(lt("0", name), lt(name, e.nextRef0)))
+		e.ctx.assumeGlobal(and(lt("0", name), lt(name, e.nextRef0)))
 		for _, o := range e.globals {
-			e.ctx.assume(not(eq(o, name)))
+			e.ctx.assumeGlobal(not(eq(o, name)))
 		}
 		e.globals = append(e.globals, name)
 	}
@@ -506,7 +507,7 @@ func (e *Exec) constArray(ks string, vt types.Type) string {
 	name := "zeromap$" + sanitize(ks) + "$" + sanitize(vs)
 	if _, ok := e.ctx.declared[name]; !ok {
 		e.ctx.declare(name, arraySort(ks, vs))
-		e.ctx.assume(fmt.Sprintf("(forall ((k %s)) (! (= (select %s k) %s) :pattern ((select %s k))))", ks, name, z, name))
+		e.ctx.assumeGlobal(fmt.Sprintf("(forall ((k %s)) (! (= (select %s k) %s) :pattern ((select %s k))))", ks, name, z, name))
 	}
 	return name
 }
@@ -721,7 +722,7 @@ func (e *Exec) box(v Val, t types.Type) string {
 	ax := fmt.Sprintf("(forall ((x %s)) (! (= (un%s (%s x)) x) :pattern ((%s x))))", s, fn, fn, fn)
 	if !e.boxAx[fn] {
 		e.boxAx[fn] = true
-		e.ctx.assume(ax)
+		e.ctx.assumeGlobal(ax)
 	}
 	return app(fn, v.T)
 }
@@ -763,7 +764,8 @@ var _ = strings.Join
 // rangeStable: a write to map object m (heap mv) must not hit a map that an
 // enclosing loop is ranging over; the visited-set facts of Next rely on it.
 func (e *Exec) rangeStable(fr *frame, st *State, mv, m string, pos token.Pos) {
-	for rng, name := range fr.rangeGhost {
+	for _, rng := range sortedRanges(fr.rangeGhost) {
+		name := fr.rangeGhost[rng]
 		mt, ok := fr.rangeMap[rng]
 		if !ok {
 			continue
@@ -786,4 +788,13 @@ func (e *Exec) rangeStable(fr *frame, st *State, mv, m string, pos token.Pos) {
 		}
 		e.oblige(fr, st, "range-stable", "the map being ranged over is not written inside the loop", pos, not(eq(m, g.T)))
 	}
+}
+
+func sortedRanges(m map[*ssa.Range]string) []*ssa.Range {
+	out := make([]*ssa.Range, 0, len(m))
+	for r := range m {
+		out = append(out, r)
+	}
+	sort.Slice(out, func(i, j int) bool { return m[out[i]] < m[out[j]] })
+	return out
 }
